@@ -3,6 +3,7 @@ import re
 from ops import *
 from norm import Norm, fn as fmt_n
 from runner import site_of
+from interp import peel
 import cfg
 
 ALPHABET = "ABCDEFGHIJKLMNOPQRSTUVWXYZabcdefghijklmnopqrstuvwxyz0123456789-_"     # RFC 4648 §5
@@ -73,6 +74,10 @@ def check_decode6(ctx):
                             rng.append((a + 1, b - 1, ("const", xs[1]))); ok = True
                         elif isinstance(xs, tuple) and xs[0] == "binop" and xs[1] == "Add" and is_src(xs[2]) and xs[3][0] == "int":
                             rng.append((a + 1, b - 1, ("src+", xs[3][1]))); ok = True
+                        elif isinstance(xs, tuple) and xs[0] == "binop" and xs[1] == "Add" and is_src(xs[3]) and xs[2][0] == "int":
+                            rng.append((a + 1, b - 1, ("src+", xs[2][1]))); ok = True      # c + src
+                        elif isinstance(xs, tuple) and xs[0] == "binop" and xs[1] == "Sub" and is_src(xs[2]) and xs[3][0] == "int":
+                            rng.append((a + 1, b - 1, ("src+", -xs[3][1]))); ok = True     # src - c
         if not ok:
             probs.append("term not of the range-mask form ((lo-1 - src) & (src - (hi+1))) >> 8 & value: " + fmt_n(t)[:160])
     base = sum(c[1] for c in consts)
@@ -327,6 +332,10 @@ def check_lengths(ctx):
                 if nm.n(di[0]["vals"][0]) != ("in", "src"):
                     probs.append("decode_inner does not receive the whole input string")
                 took = any("decode_inner" in repr(nm.n(g["cond"])) and g["value"] == 0 for g in r.path.guards)
+                # or the function returns decode_inner's Result itself through Ok-preserving plumbing (map / map_err)
+                root = peel(r.ret)
+                if isinstance(root, tuple) and root and root[0] in ("call", "fallible") and "decode_inner" in repr(root[:2] if root[0] == "call" else root[2]):
+                    took = True
                 if not took:
                     probs.append("success does not depend on decode_inner's verdict")
                 if name == "base64::decode":
@@ -367,7 +376,7 @@ def check_encoder(ctx):
     the input (a second blocking whose size is not a multiple of 3 would emit partial groups mid-string). encode_last maps a
     remainder of 0/1/2/(>=3) bytes to 0/2/3/4 output characters of encode_3bytes applied to the zero-padded bytes."""
     from origins import Origins
-    from interp import Interp
+    from interp import peel, Interp
     import cfg
     cr = ctx.crates["paseto_core"]
     f = cr.fns.get("base64::write_to_fmt")
